@@ -10,7 +10,7 @@
         forall s t, ret (ld s t) = false -> target (ld s t) = t.
    Nothing but statements lives in this file. *)
 From Coq Require Import ZArith List Bool.
-From VV Require Import Serial.SerialDefs Serial.SerialFailProofs.
+From VV Require Import Serial.SerialDefs Serial.SerialFailProofs Serial.SerialExtraProofs.
 Import ListNotations.
 Local Open Scope Z_scope.
 
@@ -63,6 +63,22 @@ Theorem C12_matrix_load_fail_untouched : forall s t,
   ret (matrix_load s t) = false -> target (matrix_load s t) = t.
 Proof. exact matrix_fu. Qed.
 Print Assumptions C12_matrix_load_fail_untouched.
+
+(* load_no_oob.  The loaders of the model use iteration and push_back only,
+   except population::load: the repaired function, written in the checked
+   vocabulary (indexing = nth_error; out of range = POob) with its final
+   capacity loop over pop[l] / allowed[l], never indexes out of range, for
+   EVERY stream, and computes exactly what pop_load computes. *)
+Theorem C12_population_load_no_oob : forall (I : Type) iload (idflt : I) s,
+  pop_load_chk I iload idflt s <> POob.
+Proof. exact pop_load_chk_no_oob. Qed.
+Print Assumptions C12_population_load_no_oob.
+
+Theorem C12_population_load_checked_form_agrees : forall (I : Type) iload (idflt : I) s t,
+  pop_load_chk I iload idflt s =
+  match pop_load I iload idflt s t with (true, p, s') => POk p s' | (false, _, _) => PFail end.
+Proof. exact pop_load_chk_agrees. Qed.
+Print Assumptions C12_population_load_checked_form_agrees.
 
 (* non-vacuity: failing loads exist, on targets with content (a truncated and
    a damaged stream), and a successful load does change the target *)
